@@ -230,4 +230,97 @@ theorem senders_coords (cfg : Cfg) (me : Nat) (next : List (Coord × Bool)) :
     intro p _
     simp [Bool.and_comm]
 
+/-! ### the senders towards one downstream block (a producer may have several) -/
+
+/-- the (sorted) senders towards block `b` -/
+def sendersTo (ss : List Endpoint) (b : Nat) : List Endpoint := ss.filter (·.coord.block == b)
+
+/-- the indexes of `indexesOf` enumerate exactly `sendersTo`, in order -/
+theorem indexesOf_get (b : Nat) : ∀ ss : List Endpoint,
+    (indexesOf (ss.map (·.coord.block)) b).map (fun i => ss[i]?) = (sendersTo ss b).map some := by
+  intro ss
+  induction ss with
+  | nil => simp [indexesOf, sendersTo]
+  | cons x xs ih =>
+    have ih' : ((List.range xs.length).filter (fun i => (xs.map (·.coord.block))[i]? == some b)).map
+        (fun i => xs[i]?) = (xs.filter (·.coord.block == b)).map some := by
+      simpa [indexesOf, sendersTo] using ih
+    simp only [indexesOf, sendersTo, List.map_cons, List.length_cons, List.range_succ_eq_map,
+      List.filter_cons, List.getElem?_cons_zero, List.filter_map, List.map_map]
+    by_cases hx : x.coord.block = b
+    · simp only [hx, beq_self_eq_true, if_true, List.map_cons, List.getElem?_cons_zero,
+        List.cons.injEq, true_and]
+      rw [← ih']
+      simp [Function.comp_def]
+    · have : (some x.coord.block == some b) = false := by simp [hx]
+      have h2 : (x.coord.block == b) = false := by simp [hx]
+      simp only [this, h2, Bool.false_eq_true, if_false]
+      rw [← ih']
+      simp [Function.comp_def]
+
+/-- the coordinate the element goes to inside block `b`: `sorted senders towards b [idx % len]` -/
+def targetIn (ss : List Endpoint) (b idx : Nat) : Option Coord :=
+  let cs := (sendersTo ss b).map (·.coord)
+  cs[idx % cs.length]?
+
+theorem pick_coord (ss : List Endpoint) (idx b : Nat) (hb : b ∈ ss.map (·.coord.block)) :
+    (ss[pick (ss.map (·.coord.block)) idx b]?).map (·.coord) = targetIn ss b idx := by
+  have hg := indexesOf_get b ss
+  have hlen : (indexesOf (ss.map (·.coord.block)) b).length = (sendersTo ss b).length := by
+    have := congrArg List.length hg; simpa using this
+  have hp := (pick_spec (ss.map (·.coord.block)) idx b hb).1
+  have h1 := congrArg (fun l => l[idx % (indexesOf (ss.map (·.coord.block)) b).length]?) hg
+  simp only [List.getElem?_map, hp, Option.map_some] at h1
+  unfold targetIn
+  simp only [List.length_map, List.getElem?_map, ← hlen]
+  cases hq : (sendersTo ss b)[idx % (indexesOf (ss.map (·.coord.block)) b).length]? with
+  | none => rw [hq] at h1; simp at h1
+  | some e => rw [hq] at h1; simp at h1; simp [h1]
+
+/-- The coordinates of the senders towards block `b` are exactly `cs`, in order, whenever the
+    connections of the replica towards `b` are the non-fragile links to `cs` (in any order, mixed
+    with the connections towards other blocks), `b` is not ignored and `cs` is sorted. -/
+theorem sendersTo_coords (cfg : Cfg) (me : Nat) (next : List (Coord × Bool)) (b : Nat)
+    (cs : List Coord)
+    (hJ : (next.filter (fun p => p.1.block == b)).Perm (cs.map (·, false)))
+    (hi : cfg.ignore.contains b = false)
+    (hs : cs.Pairwise (fun a c => lexLe a.key c.key = true)) :
+    (sendersTo (senders cfg me next) b).map (·.coord) = cs := by
+  have hsc := senders_coords cfg me next
+  have hmap : (sendersTo (senders cfg me next) b).map (·.coord) =
+      ((senders cfg me next).map (·.coord)).filter (·.block == b) := by
+    simp [sendersTo, List.filter_map, Function.comp_def]
+  apply List.Perm.eq_of_pairwise (le := fun a c : Coord => lexLe a.key c.key = true)
+  · intro a c _ _ hac hca
+    exact Coord.key_inj (lexLe_antisymm _ _ (by simp [Coord.key]) hac hca)
+  · rw [hmap]; exact hsc.1.sublist List.filter_sublist
+  · exact hs
+  · rw [hmap]
+    refine (hsc.2.filter _).trans ?_
+    -- reorder the filters: first the block, then fragile / ignore
+    have hi' : b ∉ cfg.ignore := by simpa using hi
+    have e1 : ((next.filter (fun p => !p.2 && !cfg.ignore.contains p.1.block)).map (·.1)).filter
+        (·.block == b) =
+        ((next.filter (fun p => p.1.block == b)).filter
+          (fun p => !p.2 && !cfg.ignore.contains p.1.block)).map (·.1) := by
+      simp only [List.filter_map, List.filter_filter, Function.comp_def]
+      congr 1
+      apply List.filter_congr
+      intro p _
+      simp [Bool.and_comm]
+    rw [e1]
+    refine ((hJ.filter _).map _).trans (List.Perm.of_eq ?_)
+    have hblock : ∀ c ∈ cs, c.block = b := by
+      intro c hc
+      have : (c, false) ∈ next.filter (fun p => p.1.block == b) :=
+        hJ.mem_iff.mpr (List.mem_map.mpr ⟨c, hc, rfl⟩)
+      simpa using (List.mem_filter.mp this).2
+    rw [List.filter_map, List.map_map]
+    have : cs.filter ((fun p : Coord × Bool => !p.2 && !cfg.ignore.contains p.1.block) ∘
+        fun c => (c, false)) = cs := by
+      rw [List.filter_eq_self]
+      intro c hc
+      simp [hblock c hc, hi']
+    rw [this]; exact List.map_id' _
+
 end Noir.Router
